@@ -54,3 +54,26 @@ def host_data(p):
 def host_unit_detection(p):
     return host(p, lambda fi: any(isinstance(s, ast.For) and "DEPTH_UNITS" in ast.unparse(s.iter) for s in walk_shallow(fi.node)),
                 "the index-unit detection loop")
+
+
+WRITE = "writer.write"
+WRITER_ANCHORS = ("get_formatter_function", "get_section_order_function", "get_section_widths")
+
+
+def write_family(p):
+    """writer.write, the private module-level functions of lasio/writer.py it (transitively) calls, and all their
+    nested functions (lambdas excluded)"""
+    def build():
+        r = get_resolver(p)
+        root = p.func(WRITE)
+        clos = r.closure([root])
+        tops = [root] + [f for q, f in sorted(clos.items()) if f is not root and f.module.name == "writer" and f.parent is None
+                         and f.cls is None and f.name not in WRITER_ANCHORS]
+        fam = []
+        for t in tops:
+            fam.append(t)
+            for q, f in sorted(p.functions.items()):
+                if q.startswith(t.qual + ".") and not isinstance(f.node, ast.Lambda):
+                    fam.append(f)
+        return fam
+    return p.cached("write_family", build)
